@@ -62,7 +62,14 @@ Example trace_calls_example :
                    (ECons (ETuple (ECons (ECall 0 (ECons (i 2) ENil)) (ECons (call0 1) ENil))) ENil)) in
   lift_free e = true /\ calls e = [0; 0; 1; 2] /\
   exists v st', eval test_oracle e st0 = Done (v, st') /\ fns st' = [0; 0; 1; 2].
-Proof. split; [reflexivity|]. split; [reflexivity|]. eexists. eexists. split; vm_compute; reflexivity. Qed.
+Proof.
+  split; [reflexivity|]. split; [reflexivity|].
+  destruct (eval test_oracle (ECall 2 (ECons (EBin BAdd (ECall 0 (ECons (v 0) ENil)) (i 1))
+                   (ECons (ETuple (ECons (ECall 0 (ECons (i 2) ENil)) (ECons (call0 1) ENil))) ENil))) st0) as [[v1 st1]| |] eqn:E.
+  - exists v1, st1. split; [reflexivity|]. vm_compute in E. inversion E. vm_compute. reflexivity.
+  - vm_compute in E. discriminate.
+  - vm_compute in E. discriminate.
+Qed.
 
 Theorem trace_branch_partial : forall oracle e, frag_cond e = true ->
   forall bb t f g n s',
@@ -172,7 +179,11 @@ Example order_edges_example :
     region_edges W 5 = [(6, 8); (8, 9); (9, 19); (19, 7)] /\
     region_edges W 10 = [(11, 17); (17, 12)] /\ region_edges W 13 = [] /\
     region_edges W 1 = [(2, 4); (4, 3)] /\ is_region (nodes W) 5 = true.
-Proof. eexists. repeat split; vm_compute; reflexivity. Qed.
+Proof.
+  exists (match track init ex_ins with Some W => W | None => init end).
+  split; [vm_compute; reflexivity|]. split; [vm_compute; reflexivity|]. split; [vm_compute; reflexivity|].
+  split; [vm_compute; reflexivity|]. split; [vm_compute; reflexivity|]. split; vm_compute; reflexivity.
+Qed.
 
 (* without the building discipline the coded algorithm links a Conditional twice: a side effect in
    the first case, one in the enclosing block, one in the second case give 6 -> 9 -> 18 -> 9 *)
@@ -189,7 +200,10 @@ Theorem order_edges_discipline_needed :
   exists W, track init bad_ins = Some W /\ ctx_ok init W = (true, false, true) /\
     region_edges W 5 = [(6, 9); (9, 18); (18, 9); (9, 7)] /\
     expected_edges (nodes W) 1 5 = [(6, 9); (9, 18); (18, 7)].
-Proof. eexists. repeat split; vm_compute; reflexivity. Qed.
+Proof.
+  exists (match track init bad_ins with Some W => W | None => init end).
+  split; [vm_compute; reflexivity|]. split; [vm_compute; reflexivity|]. split; vm_compute; reflexivity.
+Qed.
 Print Assumptions order_edges_discipline_needed.
 
 (* ------------------------------------------------------------------ part 3: classification *)
